@@ -133,6 +133,14 @@ class Evaluator:
                     return ("sym", "dtype")
                 raise Unknown(n.attr)
             return ("sym", norm(n))
+        if isinstance(n, ast.Subscript) and not isinstance(n.slice, ast.Slice):
+            v, i = self.ev(n.value), self.ev(n.slice)
+            if isinstance(v, tuple) and isinstance(i, int) and not (v and v[0] == "sym"):
+                try:
+                    return v[i]
+                except IndexError:
+                    raise Raises("IndexError")
+            raise Unknown(norm(n))
         if isinstance(n, ast.Compare) and len(n.ops) == 1:
             a, b = self.ev(n.left), self.ev(n.comparators[0])
             op = n.ops[0]
